@@ -289,26 +289,48 @@ def _fold(prog, f: FuncInfo, e: ast.expr | None):
 
 
 def rseq_scalars(ctx: Context) -> None:
+    """phi_d is the fixed point of x -> (1 + x)^(1/(d+1)), iterated from 2.0 until the value no longer changes (exact float equality).
+    Two spellings of the same iteration are read: `while prev != x: prev = x; x = F(x)` and `while True: y = F(x); if y == x: return y; x = y`."""
     f = ctx.func(f"{RS}.compute_phi")
     n = normaliser(ctx.prog, f, inline_locals=False)
     d = f.bound_params[0]
     rets = returns_of(f)
-    if not rets or not isinstance(rets[0].value, ast.Name):
-        raise AnalysisError("compute_phi does not return a local; cannot identify the iterated value")
-    phi = rets[0].value.id
     loops = [w for w in walk_scope(f.node) if isinstance(w, ast.While)]
     ctx.floor("R4", "fixed-point loop in compute_phi", len(loops), 1)
     w = loops[0]
-    inits = [s for s in walk_scope(f.node) if isinstance(s, (ast.Assign, ast.AnnAssign)) and src(s.targets[0] if isinstance(s, ast.Assign) else s.target) == phi and not any(x is s for x in ast.walk(w))]
-    ok = len(inits) == 1 and isinstance(inits[0].value, ast.Constant) and inits[0].value.value == 2.0
-    ctx.check(ok, "R4.phi", "RSequenceSampler.compute_phi:start", "the fixed-point iteration starts from 2.0", "phi does not start from 2.0", f, inits[0] if inits else f.node)
-    upd = [s for s in ast.walk(w) if isinstance(s, ast.Assign) and src(s.targets[0]) == phi]
-    ok = len(upd) == 1 and n.rat(upd[0].value).equals(n.rat(parse_expr(f"(1 + {phi}) ** (1.0 / ({d} + 1))")))
-    ctx.check(ok, "R4.phi", "RSequenceSampler.compute_phi:update", "phi <- (1 + phi)^(1/(d+1))", f"phi update is `{src(upd[0].value) if upd else '?'}`", f, upd[0] if upd else w)
-    # the loop runs until the value no longer changes: the test compares phi with the local that holds its previous value
-    prev = [src(s.targets[0]) for s in ast.walk(w) if isinstance(s, ast.Assign) and src(s.value) == phi and isinstance(s.targets[0], ast.Name)]
-    ok = bool(prev) and n.canon(w.test) in (n.canon(parse_expr(f"{prev[0]} != {phi}")), n.canon(parse_expr(f"{phi} != {prev[0]}")))
-    ctx.check(ok, "R4.phi", "RSequenceSampler.compute_phi:fixed-point", "iterated until phi no longer changes", f"loop condition is `{src(w.test)}`", f, w)
+    in_loop = {id(x) for x in ast.walk(w)}
+    inits = [s for s in walk_scope(f.node) if isinstance(s, (ast.Assign, ast.AnnAssign)) and id(s) not in in_loop and isinstance(s.value, ast.Constant) and s.value.value == 2.0
+             and isinstance(s.targets[0] if isinstance(s, ast.Assign) else s.target, ast.Name)]
+    ctx.check(len(inits) == 1, "R4.phi", "RSequenceSampler.compute_phi:start", "the fixed-point iteration starts from 2.0", "phi does not start from 2.0", f, inits[0] if inits else f.node)
+    if len(inits) != 1:
+        return
+    x = src(inits[0].targets[0] if isinstance(inits[0], ast.Assign) else inits[0].target)
+    want = n.rat(parse_expr(f"(1 + {x}) ** (1.0 / ({d} + 1))"))
+    upd = [s for s in ast.walk(w) if isinstance(s, ast.Assign) and isinstance(s.targets[0], ast.Name) and n.rat(s.value).equals(want)]
+    others = [s for s in ast.walk(w) if isinstance(s, (ast.Assign, ast.AugAssign)) and src(s.targets[0] if isinstance(s, ast.Assign) else s.target) == x and s not in upd
+              and not (isinstance(s, ast.Assign) and isinstance(s.value, ast.Name) and any(s.value.id == src(u.targets[0]) for u in upd))]
+    ctx.check(len(upd) == 1 and not others, "R4.phi", "RSequenceSampler.compute_phi:update", "phi <- (1 + phi)^(1/(d+1))",
+              f"phi update is `{src(upd[0].value) if upd else (src(others[0]) if others else '?')}`" if upd or others else "no update phi <- (1 + phi)^(1/(d+1)) in the loop", f, (upd or others or [w])[0])
+    if len(upd) != 1:
+        return
+    y = src(upd[0].targets[0])
+    ok = False
+    why = f"loop condition is `{src(w.test)}`"
+    if y == x:
+        # form A: the previous value is kept in a local and compared by the loop test
+        prev = [src(s.targets[0]) for s in ast.walk(w) if isinstance(s, ast.Assign) and src(s.value) == x and isinstance(s.targets[0], ast.Name)]
+        ok = bool(prev) and n.canon(w.test) in (n.canon(parse_expr(f"{prev[0]} != {x}")), n.canon(parse_expr(f"{x} != {prev[0]}"))) \
+            and all(isinstance(r.value, ast.Name) and r.value.id == x for r in rets) and not any(id(r) in in_loop for r in rets)
+    else:
+        # form B: the new value is compared with the current one inside the loop; equal -> leave with it, otherwise it becomes the current one
+        tests = [t for t in ast.walk(w) if isinstance(t, ast.If) and n.canon(t.test) in (n.canon(parse_expr(f"{y} == {x}")), n.canon(parse_expr(f"{x} == {y}")))]
+        carry = [s for s in ast.walk(w) if isinstance(s, ast.Assign) and src(s.targets[0]) == x and src(s.value) == y]
+        leaves = bool(tests) and all(isinstance(t.body[-1], (ast.Return, ast.Break)) for t in tests)
+        ret_ok = all(isinstance(r.value, ast.Name) and r.value.id in (x, y) for r in rets)
+        endless = isinstance(w.test, ast.Constant) and w.test.value is True
+        ok = len(tests) == 1 and leaves and len(carry) == 1 and ret_ok and endless
+        why = f"loop `while {src(w.test)}` with exit test(s) {[src(t.test) for t in tests]}"
+    ctx.check(ok, "R4.phi", "RSequenceSampler.compute_phi:fixed-point", "iterated until phi no longer changes (exact equality of two successive values)", why, f, w)
 
 
 def plumbing(ctx: Context) -> None:
